@@ -324,8 +324,11 @@ func genC01(thorough bool) func(t *rapid.T) Case {
 				bo.DeepChain = c.MaxDepth - 1
 			}
 		}
-		if rapid.IntRange(0, 7).Draw(t, "wide") == 7 {
+		switch rapid.IntRange(0, 15).Draw(t, "wide") {
+		case 14, 15:
 			bo.MinRecipes, bo.MaxRecipes = 16, 40
+		case 13:
+			bo.MinRecipes, bo.MaxRecipes = 64, 90
 		}
 		c.Book = genBook(t, bo)
 		c.Layout = genLayout(t, "layout")
@@ -907,8 +910,11 @@ func genC11(thorough bool) func(t *rapid.T) Case {
 			}
 			bo.MaxRecipes = 14
 		}
-		if rapid.IntRange(0, 7).Draw(t, "wide") == 7 {
+		switch rapid.IntRange(0, 15).Draw(t, "wide") {
+		case 14, 15:
 			bo.MinRecipes, bo.MaxRecipes = 16, 40
+		case 13:
+			bo.MinRecipes, bo.MaxRecipes = 64, 90
 		}
 		c.Book = genBook(t, bo)
 		bigShape := rapid.IntRange(0, 3999).Draw(t, "big_shape")
